@@ -1,5 +1,6 @@
 //! C06/C07: built-in named calendars on the REAL code.
 //!   hol  <name> d0 cnt        -> 0 hash([is_holiday, is_bus_day] for d0..d0+cnt) of get_calendar_by_name(name) | 1 | 2
+//!   holn <name> d0 cnt route  -> the same hash through NamedCal::try_new(name) (route 1) / CalType::NamedCal (route 2)
 //!   one  <name> d             -> 0 is_holiday is_bus_day is_weekday                                          | 1 | 2
 //!   res  <name>               -> 0 | 1 | 2      (does get_calendar_by_name resolve)
 //!   dyn  <name> lo hi         -> 0 w0..w6 (1 = that weekday, Mon=0, is masked) nh h* (every day of lo..=hi with is_holiday) | 1 | 2
@@ -42,6 +43,29 @@ pub fn run(op: &str, a: &Ints) -> Ints {
                 let dt = from_n(d);
                 out.push(c.is_holiday(&dt) as i128);
                 out.push(c.is_bus_day(&dt) as i128);
+            }
+            Ok(vec![hash(&out)])
+        }),
+        // the same sweep asked of NamedCal::try_new(name) (route 1) / CalType::NamedCal (route 2): the route the Python
+        // get_calendar and every curve take - a named calendar holds a UnionCal, not the Cal
+        "holn" => guard(|| {
+            let name = read_name(&mut r);
+            let (d0, cnt, route) = (r.next(), r.next(), r.next());
+            let n = NamedCal::try_new(&name).map_err(|_| ())?;
+            let mut out = vec![];
+            if route == 2 {
+                let c = rateslib::calendars::CalType::NamedCal(n);
+                for d in d0..d0 + cnt {
+                    let dt = from_n(d);
+                    out.push(c.is_holiday(&dt) as i128);
+                    out.push(c.is_bus_day(&dt) as i128);
+                }
+            } else {
+                for d in d0..d0 + cnt {
+                    let dt = from_n(d);
+                    out.push(n.is_holiday(&dt) as i128);
+                    out.push(n.is_bus_day(&dt) as i128);
+                }
             }
             Ok(vec![hash(&out)])
         }),
